@@ -61,11 +61,40 @@ def uninitialised_source_vars(case):
 K_UNINIT = "uninitialised-variable-initial-value-missing-from-type"
 
 
+def guard_level_assigned(prog):
+    """variables assigned at the level that Polar treats as 'under the loop guard': top-level statements of the body,
+    looking through a chain of single-branch else-less ifs that LoopGuardTransformer collapses into the guard"""
+    from .lang.ast import assigned_vars
+    stmts = prog.body
+    while len(stmts) == 1 and stmts[0][0] == "if" and len(stmts[0][1]) == 1 and stmts[0][2] is None:
+        stmts = stmts[0][1][0][1]
+    top, nested = set(), set()
+    for s in stmts:
+        if s[0] == "assign":
+            top.add(s[1])
+        elif s[0] == "simult":
+            top.update(s[1])
+        elif s[0] == "if":
+            for _, br in s[1]:
+                nested.update(assigned_vars(br))
+            if s[2] is not None:
+                nested.update(assigned_vars(s[2]))
+    return top, nested
+
+
 def classify_type_violation(case, violation, stage, inits):
-    """K_UNINIT: every offending value is the (symbolic) initial value of a source variable that has no
-    initial assignment - Polar's typer deliberately ignores it when the first assignment is under the loop guard"""
+    """K_UNINIT: every offending value is the (symbolic) initial value of a source variable that has no initial
+    assignment and is assigned ONLY directly under the loop guard (not inside a nested branch) of a guarded loop -
+    the one situation in which Polar's typer deliberately ignores the initial value.  An uninitialised variable
+    that is assigned inside a nested if is not explained by that mechanism."""
+    from .lang.ast import Program
+    prog = Program.from_json(case["ast"])
     un = uninitialised_source_vars(case)
-    standins = {str(inits[v]) for v in un if v in inits}
+    top, nested = guard_level_assigned(prog)
+    collapsed = len(prog.body) == 1 and prog.body[0][0] == "if" and len(prog.body[0][1]) == 1 and prog.body[0][2] is None
+    guarded = prog.guard != ("true",) or collapsed
+    explained = [v for v in un if v in top and v not in nested and guarded]
+    standins = {str(inits[v]) for v in explained if v in inits}
     bad = set(violation.get("bad_values", []))
     if bad and bad <= standins:
         return K_UNINIT
